@@ -18,6 +18,7 @@ package consensus
 
 import (
 	"errors"
+	"math"
 
 	"github.com/bbva/qed/metrics"
 	"github.com/bbva/qed/rocksdb"
@@ -321,8 +322,19 @@ func (s *raftLog) StoreLogs(logs []*raft.Log) error {
 
 // DeleteRange deletes logs within a given range inclusively.
 func (s *raftLog) DeleteRange(min, max uint64) error {
+	if min > max {
+		// empty range: an inverted RocksDB range delete would be rejected and
+		// leave the store refusing every later write.
+		return nil
+	}
 	batch := rocksdb.NewWriteBatch()
-	batch.DeleteRangeCF(s.cfHandles[logTable], util.Uint64AsBytes(min), util.Uint64AsBytes(max+1))
+	if max == math.MaxUint64 {
+		// max+1 would wrap around to 0: delete [min, max) plus max itself.
+		batch.DeleteRangeCF(s.cfHandles[logTable], util.Uint64AsBytes(min), util.Uint64AsBytes(max))
+		batch.DeleteCF(s.cfHandles[logTable], util.Uint64AsBytes(max))
+	} else {
+		batch.DeleteRangeCF(s.cfHandles[logTable], util.Uint64AsBytes(min), util.Uint64AsBytes(max+1))
+	}
 	return s.db.Write(s.wo, batch)
 }
 
